@@ -42,7 +42,7 @@ def main(ctx):
                 "MatMulAdd / Transpose+MatMul / RepeatInterleave with a randomised constant rank/shape/value or axis, optionally an extra "
                 "consumer of an intermediate or an intermediate as graph output); every case is loaded and run under 4 configurations; "
                 "trivial = the unoptimized model does not load or run; tag suffix ~ = compared with tolerance (not integer-exact)")
-    ctx.trusted += ["harness/opt: ONNX protobuf writer, f32 -> exact (m, e) encoding, RSame compression of bit-identical outcomes",
+    ctx.trusted += ["harness/opt: ONNX protobuf writer, f32 -> exact (m, e) encoding, RSame compression of bit-identical outcomes (baseline outputs are elided as `ROk []` when every other configuration is RSame or failed)",
                     "hook rten::verif::opt::dump_model (cfg rten_verif) for 'which fusion fired'",
                     "not proved, only differenced: all fusions other than IdentityFusion and RepeatInterleaveFusion, shape inference, "
                     "constant propagation on the real code, operator kernels"]
@@ -53,7 +53,7 @@ def main(ctx):
     if not ok:
         raise vf.CheckerBroken("model does not compile: " + out[-800:])
     bindir = ctx.harness(GROUP, profile="release", bins=["c01"])
-    cases = ctx.gen_exec(bindir, "c01", ctx.n(1600, 24000), inputs=ctx.replay_inputs(), timeout=3000)
+    cases = ctx.gen_exec(bindir, "c01", ctx.n(1600, 12000), inputs=ctx.replay_inputs(), timeout=3000)
     ctx.extra["baseline_failures"] = sum(1 for c in cases if c["tag"].startswith("trivial"))
     ctx.extra["focus_cases"] = sum(1 for c in cases if c["tag"].startswith("focus-"))
     ctx.correspond("optimize-differential+guards", GROUP, REQ, cases, show="show", shard=120,
